@@ -32,7 +32,7 @@ ASSUMPTIONS = [
 ]
 EXHAUSTIVE = {"quick": True, "thorough": True}
 
-SP_OPS = ["read", "assign1", "assign2", "assign_bad", "delete", "bump", "poison"]
+SP_OPS = ["read", "assign1", "assign2", "assign_bad", "assign_none", "delete", "bump", "poison", "nullify"]
 HOSTS = ["plain", "spec_unmanaged", "spec_managed", "spec_prepared"]
 
 
@@ -45,7 +45,8 @@ def make_sp_host(o, c, s, d, host):
     from spec_classes import spec_class, spec_property
 
     def getter(self):
-        return self.__dict__.get("base", 1) * 10
+        b = self.__dict__.get("base", 1)
+        return None if b == "none" else b * 10  # None is a value like any other: it is cached / overridden, not "absent"
 
     p = spec_property(getter, overridable=o, cache=c)
     if s:
@@ -94,7 +95,9 @@ class SPModel:
         if op == "read":
             if (self.o or self.c) and self.slot_set:
                 return ("ok", self.slot, "slot")
-            v = self.base * 10
+            if self.base is None:
+                return ("exc", TypeError)  # the getter itself fails (None * 10)
+            v = None if self.base == "none" else self.base * 10
             if self.managed:
                 v = self.prep(v)
                 if not isinstance(v, int):
@@ -102,8 +105,8 @@ class SPModel:
             if self.c:
                 self.slot_set, self.slot = True, v
             return ("ok", v, "getter")
-        if op in ("assign1", "assign2", "assign_bad"):
-            v = {"assign1": 5, "assign2": 7, "assign_bad": "bad"}[op]
+        if op in ("assign1", "assign2", "assign_bad", "assign_none"):
+            v = {"assign1": 5, "assign2": 7, "assign_bad": "bad", "assign_none": None}[op]
             if self.managed:
                 v = self.prep(v)
                 if not isinstance(v, int):
@@ -131,6 +134,9 @@ class SPModel:
         if op == "poison":
             self.base = "s"
             return ("ok", None, "state")
+        if op == "nullify":
+            self.base = "none"
+            return ("ok", None, "state")
         raise ValueError(op)
 
 
@@ -138,8 +144,8 @@ def sp_real_step(h, op):
     try:
         if op == "read":
             return ("ok", h.p)
-        if op in ("assign1", "assign2", "assign_bad"):
-            h.p = {"assign1": 5, "assign2": 7, "assign_bad": "bad"}[op]
+        if op in ("assign1", "assign2", "assign_bad", "assign_none"):
+            h.p = {"assign1": 5, "assign2": 7, "assign_bad": "bad", "assign_none": None}[op]
             return ("ok", None)
         if op == "delete":
             del h.p
@@ -150,6 +156,9 @@ def sp_real_step(h, op):
             return ("ok", None)
         if op == "poison":
             h.__dict__["base"] = "s"
+            return ("ok", None)
+        if op == "nullify":
+            h.__dict__["base"] = "none"
             return ("ok", None)
     except BaseException as e:  # noqa
         return ("exc", type(e), e)
